@@ -125,7 +125,12 @@ class Replica(object):
             self.sim.run(steps)
         elif method == 'multi':
             names = list(chunk[0].keys())
-            if names:
+            if names and self.pos % 2:
+                # value lists that reach past the batch, and nsteps to say where it ends
+                more = chunk + tape[self.pos + n:self.pos + n + 2]
+                self.sim.step_multiple({k: [c[k] for c in more] for k in names},
+                                       nsteps=len(chunk), file=io.StringIO())
+            elif names:
                 self.sim.step_multiple({k: [c[k] for c in chunk] for k in names},
                                        file=io.StringIO())
             else:
